@@ -461,6 +461,8 @@ class Interp:
             r = node["result"]
             if isinstance(r, dict) and "big" in r:
                 return r.get("ch", "x") * r["big"]
+            if isinstance(r, dict) and r.get("raw_last"):
+                return outs[-1]  # the branch / context hands back what its last operation returned (e.g. an inner BatchResult), as is
             if isinstance(r, dict) and r.get("exotic"):
                 return {1, 2, 3}  # a value only a custom (item) serdes can record
             return r
